@@ -14,7 +14,8 @@ from hiten.algorithms.utils.config import FASTMATH
 def _event_crossed(g_prev: float, g_new: float, direction: int) -> bool:
     """Return True if a crossing consistent with direction occurred.
 
-    Accepts endpoint zeros (g_new == 0.0) to catch exact hits at the right endpoint.
+    Accepts endpoint zeros (g_new == 0.0) to catch exact hits at the right endpoint;
+    for a directional filter the zero must be reached from the admissible side.
     direction: 0 -> any; >0 -> increasing; <0 -> decreasing.
 
     Parameters
@@ -34,9 +35,9 @@ def _event_crossed(g_prev: float, g_new: float, direction: int) -> bool:
     if direction == 0:
         return (g_prev < 0.0 and g_new > 0.0) or (g_prev > 0.0 and g_new < 0.0) or (g_new == 0.0)
     elif direction > 0:
-        return (g_prev < 0.0 and g_new > 0.0) or (g_new == 0.0)
+        return g_prev < 0.0 and g_new >= 0.0
     else:
-        return (g_prev > 0.0 and g_new < 0.0) or (g_new == 0.0)
+        return g_prev > 0.0 and g_new <= 0.0
 
 
 @numba.njit(cache=False, fastmath=FASTMATH)
